@@ -284,6 +284,10 @@ bool XSAXMLScanner::scanStartTag(bool& gotData)
         qnameRawBuf, fPrefixBuf, ElemStack::Mode_Element, prefixColonPos
     );
 
+    // 'xmlns' must not be used as the prefix of an element name
+    if (!XMLString::compareNString(qnameRawBuf, XMLUni::fgXMLNSColonString, 6))
+        emitError(XMLErrs::NoXMLNSAsElementPrefix, qnameRawBuf);
+
     //if schema, check if we should lax or skip the validation of this element
     bool parentValidation = fValidate;
     if (cv) {
